@@ -307,6 +307,10 @@ func (s *Sched) spawn(name string, f func()) *thread {
 	return t
 }
 
+// InlineGo makes instrumented `go` statements executed outside a controlled
+// execution run synchronously (deterministic sequential mode for engines B/C).
+var InlineGo bool
+
 // Go starts f as a new scheduled thread when called from a thread, and as a
 // plain goroutine otherwise.
 func Go(f func()) { GoNamed("", f) }
@@ -315,6 +319,10 @@ func Go(f func()) { GoNamed("", f) }
 func GoNamed(name string, f func()) {
 	s, t := self()
 	if t == nil {
+		if InlineGo {
+			f() // sequential mode of engines B/C: the spawned body runs to completion at the spawn point
+			return
+		}
 		go f()
 		return
 	}
